@@ -464,10 +464,10 @@ impl<'a, R: Clone> AsyncGlobalCache<'a, R> {
         let mut order = self.order.lock();
 
         // An existing entry for this key is replaced by the new value
-        self.remove_existing_entry(key, &mut order);
+        let replacing = self.detach_existing_entry(key, &mut order);
 
         // Handle entry-count limits
-        self.handle_entry_limit_eviction(&mut order);
+        self.handle_entry_limit_eviction(&mut order, replacing);
 
         // Add the new entry to the order queue
         order.push_back(key.to_string());
@@ -476,20 +476,27 @@ impl<'a, R: Clone> AsyncGlobalCache<'a, R> {
         self.cache.insert(key.to_string(), (value, timestamp, 0));
     }
 
-    /// Drops the entry currently stored for `key`, if any, together with its position in
-    /// the eviction order, so that a following store replaces value, timestamp and
-    /// frequency and the key moves to the back of the queue (as the sync caches do).
+    /// Prepares the replacement of the entry currently stored for `key`, if any: its
+    /// position in the eviction order is dropped, so that the following store moves the
+    /// key to the back of the queue (as the sync caches do) and the key cannot be chosen
+    /// as a victim meanwhile. The entry itself stays in the map until the store overwrites
+    /// it with the new value, timestamp and frequency: lookups do not take the queue
+    /// lock, and removing the entry first would make a stored key look absent to a
+    /// concurrent caller, which would then run the function again.
+    ///
+    /// Returns `true` if an entry is stored for `key` (it must not be counted against
+    /// the entry limit or the memory limit of the store that replaces it).
     ///
     /// # Parameters
     /// - `key`: A reference to the key being stored as a `&str`.
     /// - `order`: A mutable reference to a locked `VecDeque<String>` wrapped in a `MutexGuard`.
-    fn remove_existing_entry(
+    fn detach_existing_entry(
         &self,
         key: &str,
         order: &mut MutexGuard<RawMutex, VecDeque<String>>,
-    ) {
-        self.cache.remove(key);
+    ) -> bool {
         order.retain(|k| k != key);
+        self.cache.contains_key(key)
     }
 
     /// Finds the key with minimum frequency for LFU eviction.
@@ -637,9 +644,10 @@ impl<'a, R: Clone> AsyncGlobalCache<'a, R> {
     /// - **LFU**: Evicts the entry with the lowest frequency counter
     /// - **ARC**: Evicts based on a hybrid score of frequency and recency
     /// - **FIFO/LRU**: Evicts from the front of the queue
-    fn handle_entry_limit_eviction(&self, order: &mut VecDeque<String>) {
+    fn handle_entry_limit_eviction(&self, order: &mut VecDeque<String>, replacing: bool) {
         if let Some(limit) = self.limit {
-            if self.cache.len() >= limit {
+            // An entry that the current store replaces does not count
+            if self.cache.len() - usize::from(replacing) >= limit {
                 match self.policy {
                     EvictionPolicy::LFU => {
                         if let Some(evict_key) = self.find_min_frequency_key(order) {
@@ -799,7 +807,7 @@ impl<'a, R: Clone + crate::MemoryEstimator> AsyncGlobalCache<'a, R> {
         let mut order = self.order.lock();
 
         // An existing entry for this key is replaced by the new value
-        self.remove_existing_entry(key, &mut order);
+        let replacing = self.detach_existing_entry(key, &mut order);
 
         // Check memory limit first (if specified)
         if let Some(max_mem) = self.max_memory {
@@ -813,13 +821,19 @@ impl<'a, R: Clone + crate::MemoryEstimator> AsyncGlobalCache<'a, R> {
                 // 1. Don't cache it at all (skip insertion)
                 // 2. Clear all entries and cache it anyway
                 // We choose option 1 to respect the memory limit
+                // (the entry it was meant to replace is dropped)
+                if replacing {
+                    self.cache.remove(key);
+                }
                 return;
             }
 
             loop {
+                // The entry being replaced does not count
                 let current_mem: usize = self
                     .cache
                     .iter()
+                    .filter(|entry| !(replacing && entry.key() == key))
                     .map(|entry| entry.value().0.estimate_memory())
                     .sum();
 
@@ -887,7 +901,7 @@ impl<'a, R: Clone + crate::MemoryEstimator> AsyncGlobalCache<'a, R> {
         }
 
         // Handle entry-count limits (reuse the same method)
-        self.handle_entry_limit_eviction(&mut order);
+        self.handle_entry_limit_eviction(&mut order, replacing);
 
         // Add the new entry to the order queue
         order.push_back(key.to_string());
